@@ -317,4 +317,420 @@ Proof.
   - destruct out as [e|]; [|done]. tauto.
 Qed.
 
+(** ** remove *)
+Theorem pq_remove : pq_remove_stmt keq hash ple.
+Proof.
+  intros Hk Ho o s k Hinv. pose proof Hinv as (HWF & Hf & Hord).
+  unfold PQ.pq_remove. pose proof (remove_ok Hk s k HWF) as Hrm.
+  destruct (gio (smap s) k) as [i|] eqn:Hg.
+  - destruct Hrm as (e & pos & s1 & Hr & HWF1 & He & Hq & Hev1 & Hmsr & Hsz1 & (Htk1 & Hfu1 & Hcp1)).
+    rewrite Hr. cbn [mbind res_bind rbind].
+    destruct (WF_qp_pos s i pos HWF Hq) as (Hhp & Hpos & _).
+    assert (Hevp : eview s !! pos = Some e).
+    { rewrite (eview_lookup s pos HWF), Hhp. done. }
+    pose proof (a_remove_ok snd ple Ho (eview s) pos e) as Har.
+    pose proof (pq_cost snd ple (eview s)) as (_ & _ & Hc & _). specialize (Hc pos).
+    rewrite (eview_length s HWF) in Hc. specialize (Hc Hpos).
+    unfold a_remove in Har, Hc. cbv zeta in Har, Hc. rewrite <- Hev1 in Har, Hc.
+    rewrite (eview_length s1 HWF1) in Har, Hc.
+    assert (Hee : (e.1, e.2) = e) by (destruct e; done). rewrite Hee.
+    destruct (decide (pos < ssize s1)) as [Hlt|Hge].
+    + destruct (up_heapify_sim' s1 pos HWF1 ltac:(congruence) Hlt)
+        as (s2 & Hr2 & HWF2 & Hev2 & Hm2 & Hsz2 & Htk2 & Hfu2 & Hcp2).
+      rewrite Hr2. cbn [mbind res_bind rbind].
+      exists (Some e), s2. split; [done|]. splits; try done.
+      * congruence.
+      * intros ->. rewrite Hev2. apply Har; [by apply Hord|done].
+      * rewrite Htk2, Htk1. unfold lg. lia.
+      * exists e. rewrite Hm2. done.
+    + cbn [mbind res_bind rbind].
+      exists (Some e), s1. split; [done|]. splits; try done.
+      * congruence.
+      * intros ->. apply Har; [by apply Hord|done].
+      * lia.
+      * exists e. done.
+  - rewrite Hrm. cbn [mbind res_bind rbind].
+    exists None, s. split; [done|]. split; [done|]. split; [lia|done].
+Qed.
+
+(** ** pop_if *)
+Lemma swap_remove_if_sim (s : store) f :
+  keq_ok keq hash -> pred_ok keq f -> WF s -> fuse s = None -> 0 < ssize s ->
+  exists e i, heap s !! 0 = Some i /\ smap s !! i = Some e /\ eview s !! 0 = Some e /\
+    exists out s', swap_remove_if s 0 f = Ok (out, s') /\ WF s' /\ fuse s' = None /\
+      ticks s' = ticks s /\
+      let '(i', p', b) := f e.1 e.2 in
+      if b : bool
+      then out = Some (i', p') /\
+           map_swap_remove_index (<[i := (i', p')]> (smap s)) i = Some ((i', p'), smap s') /\
+           eview s' = aswap_remove (<[0 := (i', p')]> (eview s)) 0 /\ ssize s' = ssize s - 1
+      else out = None /\ smap s' = <[i := (i', p')]> (smap s) /\
+           eview s' = <[0 := (i', p')]> (eview s) /\ ssize s' = ssize s.
+Proof.
+  intros Hk Hpf HWF Hf Hpos.
+  destruct (WF_heap_lookup keq s 0 HWF Hpos) as (i & Hh & Hq & Hi).
+  pose proof HWF as (Lm & _).
+  destruct (lookup_lt_is_Some_2 (smap s) i ltac:(lia)) as [e He].
+  exists e, i. split; [done|]. split; [done|]. split.
+  { rewrite (eview_lookup s 0 HWF), Hh. done. }
+  unfold swap_remove_if, getu. rewrite Hh. cbn [mbind res_bind rbind].
+  rewrite He. cbn [unwrap mbind res_bind rbind].
+  rewrite (cb_nofuse s Hf). cbn [mbind res_bind rbind].
+  pose proof (Hpf e.1 e.2) as Hke.
+  destruct (f e.1 e.2) as [[i' p'] b]. cbn [fst snd] in Hke.
+  destruct (set_entry_ok Hk s i e (i', p') 0 HWF He Hq Hke) as [HWF1 Hev1].
+  set (s1 := set_map s (<[i := (i', p')]> (smap s))) in *.
+  destruct b.
+  - destruct (swap_remove_ok s1 0 HWF1 Hpos)
+      as (e2 & i2 & s2 & Hr & HWF2 & Hh2 & Hm2 & Hev2 & Hmsr & Hsz2 & (Htk2 & Hfu2 & Hcp2)).
+    change (heap s1) with (heap s) in Hh2. rewrite Hh in Hh2. injection Hh2 as <-.
+    change (smap s1) with (<[i := (i', p')]> (smap s)) in Hm2, Hmsr.
+    rewrite list_lookup_insert in Hm2 by lia. injection Hm2 as <-.
+    exists (Some (i', p')), s2. rewrite Hr. splits; try done.
+    + rewrite Hfu2. done.
+    + rewrite Hev2, Hev1. done.
+  - exists None, s1. splits; done.
+Qed.
+
+Theorem pq_pop_if : pq_pop_if_stmt keq hash ple.
+Proof.
+  intros Hk Ho o s f Hpf Hinv. pose proof Hinv as (HWF & Hf & Hord).
+  destruct (decide (ssize s = 0)) as [Hz|Hnz].
+  { destruct (peek_none s HWF Hz) as [Hp Hm].
+    unfold pop_if. rewrite Hz, Hp. exists None, s.
+    split; [done|]. split; [done|]. split; [lia|done]. }
+  destruct (swap_remove_if_sim s f Hk Hpf HWF Hf ltac:(lia))
+    as (e & i & Hh & Hm & He & out & s1 & Hr & HWF1 & Hf1 & Htk1 & Hcase).
+  rewrite (peek_eview s HWF), He.
+  set (f' := fun e : I * P => let '(i', p', b) := f e.1 e.2 in ((i', p'), b)).
+  pose proof (a_pop_if_ok snd ple Ho (eview s) f') as Hab.
+  pose proof (pq_cost snd ple (eview s)) as (_ & _ & _ & _ & Hc & _). specialize (Hc f').
+  unfold a_pop_if in Hab, Hc. rewrite He in Hab, Hc. unfold f' in Hab, Hc.
+  rewrite (eview_length s HWF) in Hab, Hc.
+  unfold pop_if.
+  destruct (f e.1 e.2) as [[i' p'] b].
+  destruct b; destruct Hcase as (-> & Hms & Hev1 & Hsz1); rewrite <- Hev1 in Hab, Hc;
+    (destruct (ssize s) as [|[|m]] eqn:Hsz; [lia| |]).
+  1,3: (rewrite Hr; eexists _, s1; split; [reflexivity|]; splits; try done;
+         [intros ->; apply Hab; by apply Hord | cbn [fst snd] in Hc; unfold lg; lia | exists i; done]).
+  all: rewrite Hr; cbn [mbind res_bind rbind];
+     destruct (heapify_sim' s1 0 HWF1 Hf1 ltac:(lia))
+       as (s2 & Hr2 & HWF2 & Hev2 & Hm2 & Hsz2 & Htk2 & Hfu2 & Hcp2);
+     rewrite Hr2; cbn [mbind res_bind rbind];
+     destruct (aheapify snd ple (eview s1) 0) as [l3 t]; cbn [fst snd] in *;
+     eexists _, s2; split; [reflexivity|]; splits; try done;
+     [congruence | intros ->; rewrite Hev2; apply Hab; by apply Hord | unfold lg; lia
+      | exists i; rewrite Hm2; done].
+Qed.
+
+(** ** push_increase / push_decrease *)
+Lemma get_priority_gio (Hk : keq_ok keq hash) (s : store) k :
+  get_priority keq hash s k =
+    match gio (smap s) k with
+    | Some i => snd <$> smap s !! i
+    | None => None
+    end.
+Proof. unfold get_priority, get. destruct (gio (smap s) k); reflexivity. Qed.
+
+Lemma pq_inv_set_ticks o (s : store) t : pq_inv o s -> pq_inv o (set_ticks s t).
+Proof. intros H; exact H. Qed.
+
+Theorem pq_push_dir : pq_push_dir_stmt keq hash ple.
+Proof.
+  intros Hk Ho dir o s k p Hinv. pose proof Hinv as (HWF & Hf & Hord).
+  pose proof (pq_push Hk Ho o s k p Hinv) as Hpush.
+  destruct (gio (smap s) k) as [i|] eqn:Hg.
+  - destruct (gio_some Hk _ _ _ Hg) as (e & He & Hke).
+    pose proof (pq_push Hk Ho o (set_ticks s (S (ticks s))) k p
+                  (pq_inv_set_ticks o s _ Hinv)) as Hpush1.
+    change (smap (set_ticks s (S (ticks s)))) with (smap s) in Hpush1.
+    change (ssize (set_ticks s (S (ticks s)))) with (ssize s) in Hpush1.
+    change (ticks (set_ticks s (S (ticks s)))) with (S (ticks s)) in Hpush1.
+    rewrite Hg in Hpush1.
+    destruct Hpush1 as (out & s' & Hr & Hinv' & Htk & e0 & He0 & -> & Hm').
+    rewrite He in He0. injection He0 as <-.
+    assert (Hgp : get_priority keq hash s k = Some e.2).
+    { rewrite (get_priority_gio Hk), Hg, He. done. }
+    destruct dir; unfold push_increase, push_decrease; rewrite Hgp;
+      rewrite (cmp_lt_nofuse ple s _ _ Hf); cbn [mbind res_bind rbind];
+      rewrite plt_alt.
+    + destruct (alt ple e.2 p) eqn:Hb.
+      * rewrite Hr. exists (Some e.2), s'. split; [done|]. split; [done|].
+        split; [lia|]. exists e. rewrite Hb. done.
+      * exists (Some p), (set_ticks s (S (ticks s))). split; [done|].
+        split; [done|]. split; [cbn; lia|]. exists e. rewrite Hb. done.
+    + destruct (alt ple p e.2) eqn:Hb.
+      * rewrite Hr. exists (Some e.2), s'. split; [done|]. split; [done|].
+        split; [lia|]. exists e. rewrite Hb. done.
+      * exists (Some p), (set_ticks s (S (ticks s))). split; [done|].
+        split; [done|]. split; [cbn; lia|]. exists e. rewrite Hb. done.
+  - assert (Hgp : get_priority keq hash s k = None).
+    { rewrite (get_priority_gio Hk), Hg. done. }
+    destruct Hpush as (out & s' & Hr & Hinv' & Htk & Hout).
+    exists out, s'.
+    destruct dir; unfold push_increase, push_decrease; rewrite Hgp;
+      (split; [done|]); (split; [done|]); (split; [lia|done]).
+Qed.
+
+(** ** peek_mut *)
+Lemma heap_ord_insert_same (l : list (I * P)) pos e e' :
+  l !! pos = Some e -> e'.2 = e.2 -> heap_ord snd ple l -> heap_ord snd ple (<[pos := e']> l).
+Proof.
+  intros Hl Hp Hh c xc xp Hc Hxc Hxp.
+  pose proof (lookup_lt_Some _ _ _ Hl) as Hlt.
+  assert (exists yc, l !! c = Some yc /\ yc.2 = xc.2) as (yc & Hyc & Hyc2).
+  { destruct (decide (c = pos)) as [->|Hne].
+    - rewrite list_lookup_insert in Hxc by done. injection Hxc as <-. eauto.
+    - rewrite list_lookup_insert_ne in Hxc by done. eauto. }
+  assert (exists yp, l !! par c = Some yp /\ yp.2 = xp.2) as (yp & Hyp & Hyp2).
+  { destruct (decide (par c = pos)) as [Heq|Hne].
+    - rewrite Heq in *. rewrite list_lookup_insert in Hxp by done. injection Hxp as <-. eauto.
+    - rewrite list_lookup_insert_ne in Hxp by done. eauto. }
+  rewrite <- Hyc2, <- Hyp2. exact (Hh c yc yp Hc Hyc Hyp).
+Qed.
+
+Theorem pq_peek_mut : pq_peek_mut_stmt keq hash ple.
+Proof.
+  intros Hk Ho o s u Hu Hinv. pose proof Hinv as (HWF & Hf & Hord).
+  unfold peek_mut.
+  destruct (decide (ssize s = 0)) as [Hz|Hnz].
+  { destruct (peek_none s HWF Hz) as [Hp Hm]. rewrite Hp.
+    exists None, s. done. }
+  destruct (WF_heap_lookup keq s 0 HWF ltac:(lia)) as (i & Hh & Hq & Hi).
+  pose proof HWF as (Lm & _).
+  destruct (lookup_lt_is_Some_2 (smap s) i ltac:(lia)) as [e He].
+  unfold peek, getu. rewrite Hh. cbn [mbind option_bind res_bind rbind]. rewrite He.
+  destruct (set_entry_ok Hk s i e (u e.1, e.2) 0 HWF He Hq (Hu e.1)) as [HWF1 Hev1].
+  eexists _, _. split; [reflexivity|]. splits; try done.
+  - intros ->. rewrite Hev1.
+    apply (heap_ord_insert_same (eview s) 0 e); [|done|by apply Hord].
+    rewrite (eview_lookup s 0 HWF), Hh. done.
+  - exists i. done.
+Qed.
+
+(** ** heap_build and the operations that end with it *)
+Theorem pq_build : pq_build_stmt keq hash ple.
+Proof.
+  intros Hk Ho s (HWF & Hf & _).
+  destruct (heap_build_sim' s HWF Hf)
+    as (s' & Hr & HWF' & Hev & Hm & Hsz & Htk & Hfu & Hcp).
+  exists s'. split; [done|]. splits; try done.
+  - congruence.
+  - intros _. rewrite Hev. apply (abuild_ok snd ple Ho).
+  - rewrite Htk. pose proof (abuild_cost snd ple (eview s)) as Hc.
+    rewrite (eview_length s HWF) in Hc. lia.
+Qed.
+
+Lemma pq_build_size (Hk : keq_ok keq hash) (Ho : ord_ok ple) (s : store) :
+  pq_inv false s ->
+  exists s', heap_build ple s = Ok s' /\ pq_inv true s' /\ smap s' = smap s /\
+    ssize s' = ssize s /\ ticks s' <= ticks s + 4 * ssize s.
+Proof.
+  intros Hinv. destruct (pq_build Hk Ho s Hinv) as (s' & Hr & Hinv' & Hm & Htk).
+  exists s'. splits; try done; try apply Hinv'.
+  destruct Hinv as ((L & _) & _). destruct Hinv' as ((L' & _) & _). congruence.
+Qed.
+
+(** ** key-uniqueness of lists *)
+Lemma nodup_keys_cons (Hk : keq_ok keq hash) (e : I * P) m :
+  nodup_keys keq (e :: m) <->
+  (forall ej, ej ∈ m -> keq e.1 ej.1 = false) /\ nodup_keys keq m.
+Proof.
+  split.
+  - intros H. split.
+    + intros ej Hin. apply elem_of_list_lookup in Hin as [j Hj].
+      destruct (keq e.1 ej.1) eqn:Hb; [|done].
+      specialize (H 0 (S j) e ej eq_refl Hj Hb). done.
+    + intros i j ei ej Hi Hj Hb.
+      specialize (H (S i) (S j) ei ej Hi Hj Hb). lia.
+  - intros [H1 H2] i j ei ej Hi Hj Hb.
+    destruct i as [|i], j as [|j]; cbn in Hi, Hj; simplify_eq; try done.
+    + rewrite (H1 ej) in Hb; [done|]. eapply elem_of_list_lookup_2; eauto.
+    + apply (keq_sym Hk) in Hb. rewrite (H1 ei) in Hb; [done|].
+      eapply elem_of_list_lookup_2; eauto.
+    + f_equal. eapply H2; eauto.
+Qed.
+
+Lemma nodup_keys_nil : nodup_keys keq ([] : list (I * P)).
+Proof. intros i j ei ej Hi. done. Qed.
+
+(** ** retain *)
+Lemma retain_list_cons f (e : I * P) m :
+  retain_list f (e :: m) =
+    (let '(i', p', b) := f e.1 e.2 in if b : bool then [(i', p')] else []) ++ retain_list f m.
+Proof.
+  unfold retain_list. cbn [omap list_omap].
+  destruct (f e.1 e.2) as [[i' p'] b]. destruct b; reflexivity.
+Qed.
+
+Lemma retain_list_in f (m : list (I * P)) x :
+  pred_ok keq f -> x ∈ retain_list f m -> exists e, e ∈ m /\ keq x.1 e.1 = true.
+Proof.
+  intros Hpf Hin. apply elem_of_list_omap in Hin as (e & He & Hfe).
+  exists e. split; [done|]. pose proof (Hpf e.1 e.2) as H.
+  destruct (f e.1 e.2) as [[i' p'] b]. destruct b; simplify_eq. done.
+Qed.
+
+Lemma retain_list_length f (m : list (I * P)) : length (retain_list f m) <= length m.
+Proof.
+  induction m as [|e m IH]; [done|]. rewrite retain_list_cons, app_length.
+  destruct (f e.1 e.2) as [[i' p'] b]. destruct b; cbn [length]; lia.
+Qed.
+
+Lemma retain_list_nodup (Hk : keq_ok keq hash) f (m : list (I * P)) :
+  pred_ok keq f -> nodup_keys keq m -> nodup_keys keq (retain_list f m).
+Proof.
+  intros Hpf. induction m as [|e m IH]; intros Hnd; [apply nodup_keys_nil|].
+  apply (nodup_keys_cons Hk) in Hnd as [H1 H2]. rewrite retain_list_cons.
+  pose proof (Hpf e.1 e.2) as Hke.
+  destruct (f e.1 e.2) as [[i' p'] b]. destruct b; [|by apply IH].
+  cbn [app]. apply (nodup_keys_cons Hk). split; [|by apply IH].
+  intros ej Hin. destruct (retain_list_in f m ej Hpf Hin) as (e2 & He2 & Hk2).
+  cbn [fst snd] in *.
+  destruct (keq i' ej.1) eqn:Hb; [|done].
+  assert (keq e.1 e2.1 = true).
+  { eapply (keq_trans Hk); [apply (keq_sym Hk), Hke|].
+    eapply (keq_trans Hk); eauto. }
+  rewrite (H1 e2 He2) in H. done.
+Qed.
+
+Lemma retain_entries_nofuse f (s : store) : fuse s = None ->
+  forall todo done, retain_entries f s done todo = Ok (done ++ retain_list f todo, s).
+Proof.
+  intros Hf. induction todo as [|e todo IH]; intros done; cbn [retain_entries].
+  - unfold retain_list. cbn. rewrite app_nil_r. done.
+  - rewrite (cb_nofuse s Hf). rewrite retain_list_cons.
+    destruct (f e.1 e.2) as [[i' p'] b]. rewrite IH.
+    destruct b; [rewrite <- app_assoc|]; done.
+Qed.
+
+Theorem pq_retain : pq_retain_stmt keq hash ple.
+Proof.
+  intros Hk Ho s f Hpf (HWF & Hf & _).
+  unfold pq_retain_mut, retain_mut.
+  rewrite (retain_entries_nofuse f s Hf). cbn [app mbind res_bind rbind].
+  set (m' := retain_list f (smap s)).
+  pose proof HWF as (Lm & Htab & Hnd).
+  assert (Hnd' : nodup_keys keq m') by (by apply retain_list_nodup).
+  assert (Hlen : length m' <= ssize s).
+  { rewrite <- Lm. apply retain_list_length. }
+  change (ssize (set_map s m')) with (ssize s).
+  destruct (decide (length m' = ssize s)) as [Heq|Hne]; cbn [mbind res_bind rbind].
+  - assert (Hinv1 : pq_inv false (set_map s m')).
+    { split; [|split; [done|done] ]. split; [done|]. split; done. }
+    destruct (pq_build_size Hk Ho _ Hinv1) as (s' & Hr & Hinv' & Hm & Hsz & Htk).
+    exists s'. split; [done|]. split; [done|]. split; [done|].
+    change (ticks (set_map s m')) with (ticks s) in Htk.
+    change (ssize (set_map s m')) with (ssize s) in Htk. lia.
+  - destruct (identity_ok s m' Hnd') as [HWF1 _].
+    match type of HWF1 with Inv.WF _ ?x => set (s1 := x) in * end.
+    assert (Hinv1 : pq_inv false s1) by (split; [done|split; done]).
+    destruct (pq_build_size Hk Ho _ Hinv1) as (s' & Hr & Hinv' & Hm & Hsz & Htk).
+    exists s'. split; [exact Hr|]. split; [done|]. split; [done|].
+    change (ticks s1) with (ticks s) in Htk.
+    change (ssize s1) with (length m') in Htk. lia.
+Qed.
+
+(** ** From<Vec>, append *)
+Lemma empty_store_inv c : pq_inv false (empty_store c : store).
+Proof.
+  split; [|split; [done|done] ].
+  split; [done|]. split; [|apply nodup_keys_nil].
+  split; [done|]. split; [done|]. split; intros ? ? H; done.
+Qed.
+
+Lemma append_entries_ok (Hk : keq_ok keq hash) l : forall s : store, WF s ->
+  WF (append_entries keq hash s l) /\
+  smap (append_entries keq hash s l) = append_list keq hash (smap s) l /\
+  ticks (append_entries keq hash s l) = ticks s /\
+  fuse (append_entries keq hash s l) = fuse s.
+Proof.
+  induction l as [|e l IH]; intros s HWF; [done|].
+  cbn [append_entries]. unfold append_list. cbn [fold_left].
+  destruct (gio (smap s) e.1) eqn:Hg.
+  - apply IH. done.
+  - destruct (push_entry_ok Hk s e HWF Hg) as [HWF1 _].
+    destruct (IH _ HWF1) as (H1 & H2 & H3 & H4). done.
+Qed.
+
+Theorem pq_from_vec : pq_from_vec_stmt keq hash ple.
+Proof.
+  intros Hk Ho l. unfold PQ.pq_from_vec, from_vec.
+  set (s0 := empty_store (N.of_nat (length l)) : store).
+  destruct (append_entries_ok Hk l s0) as (HWF & Hm & Htk & Hfu).
+  { apply (empty_store_inv _). }
+  destruct (pq_build_size Hk Ho (append_entries keq hash s0 l))
+    as (s' & Hr & Hinv' & Hm' & Hsz & Htk').
+  { split; [done|]. split; [done|done]. }
+  exists s'. split; [done|]. split; [done|]. split; [rewrite Hm', Hm; done|].
+  rewrite Htk in Htk'. cbn in Htk'. lia.
+Qed.
+
+Lemma WF_with_ghost (g c : store) : WF c -> WF (with_ghost_of g c).
+Proof. intros H; exact H. Qed.
+
+Lemma clear_inv (s : store) : fuse s = None -> pq_inv true (clear s).
+Proof.
+  intros Hf. split; [|split; [done|] ].
+  - split; [done|]. split; [|apply nodup_keys_nil].
+    split; [done|]. split; [done|]. split; intros ? ? H; done.
+  - intros _ c xc xp _ H. done.
+Qed.
+
+Lemma empty_inv_true (s : store) : WF s -> fuse s = None -> ssize s = 0 -> pq_inv true s.
+Proof.
+  intros HWF Hf Hz. split; [done|]. split; [done|]. intros _ c xc xp _ H.
+  apply lookup_lt_Some in H. rewrite (eview_length s HWF) in H. lia.
+Qed.
+
+Lemma append_list_nil (m : list (I * P)) : append_list keq hash m [] = m.
+Proof. reflexivity. Qed.
+
+Theorem pq_append : pq_append_stmt keq hash ple.
+Proof.
+  intros Hk Ho s o (HWFs & Hfs & _) (HWFo & Hfo & _).
+  unfold PQ.pq_append, append.
+  pose proof HWFs as (Ls & _). pose proof HWFo as (Lo & _).
+  destruct (decide (ssize s < ssize o)) as [Hlt|Hge].
+  - change (ssize (with_ghost_of o s)) with (ssize s).
+    destruct (decide (ssize s = 0)) as [Hz|Hnz].
+    + destruct (pq_build_size Hk Ho (with_ghost_of s o)) as (s' & Hr & Hinv' & Hm' & Hsz & Htk').
+      { split; [exact HWFo|]. split; [exact Hfs|done]. }
+      rewrite Hr. cbn [mbind res_bind rbind].
+      exists s', (with_ghost_of o s). split; [done|]. split; [done|].
+      split; [apply empty_inv_true; done|].
+      assert (smap s = []) as Hnil by (apply nil_length_inv; lia).
+      split; [exact Hnil|]. split; [rewrite Hm', Hnil; done|].
+      split; [|done]. rewrite Hsz. exact Htk'.
+    + destruct (append_entries_ok Hk (smap s) (with_ghost_of s o)) as (HWF1 & Hm1 & Htk1 & Hfu1).
+      { exact HWFo. }
+      change (smap (with_ghost_of o s)) with (smap s).
+      destruct (pq_build_size Hk Ho (append_entries keq hash (with_ghost_of s o) (smap s)))
+        as (s' & Hr & Hinv' & Hm' & Hsz & Htk').
+      { split; [done|]. split; [rewrite Hfu1; exact Hfs|done]. }
+      rewrite Hr. cbn [mbind res_bind rbind].
+      exists s', (clear (with_ghost_of o s)). split; [done|]. split; [done|].
+      split; [apply clear_inv; exact Hfo|]. split; [done|].
+      split; [rewrite Hm', Hm1; done|]. split; [|done].
+      rewrite Hsz. rewrite Htk1 in Htk'. exact Htk'.
+  - destruct (decide (ssize o = 0)) as [Hz|Hnz].
+    + destruct (pq_build_size Hk Ho s) as (s' & Hr & Hinv' & Hm' & Hsz & Htk').
+      { split; [done|]. split; done. }
+      rewrite Hr. cbn [mbind res_bind rbind].
+      exists s', o. split; [done|]. split; [done|].
+      split; [apply empty_inv_true; done|].
+      assert (smap o = []) as Hnil by (apply nil_length_inv; lia).
+      split; [exact Hnil|]. split; [rewrite Hm', Hnil; done|].
+      split; [|done]. rewrite Hsz. exact Htk'.
+    + destruct (append_entries_ok Hk (smap o) s HWFs) as (HWF1 & Hm1 & Htk1 & Hfu1).
+      destruct (pq_build_size Hk Ho (append_entries keq hash s (smap o)))
+        as (s' & Hr & Hinv' & Hm' & Hsz & Htk').
+      { split; [done|]. split; [rewrite Hfu1; exact Hfs|done]. }
+      rewrite Hr. cbn [mbind res_bind rbind].
+      exists s', (clear o). split; [done|]. split; [done|].
+      split; [apply clear_inv; exact Hfo|]. split; [done|].
+      split; [rewrite Hm', Hm1; done|]. split; [|done].
+      rewrite Hsz. rewrite Htk1 in Htk'. exact Htk'.
+Qed.
+
 End PQOps.
